@@ -11,6 +11,7 @@ SeqCfgSetQ == {cf \in SeqCfgSet : cf.N = 2 /\ cf.thr # 0 /\ (cf.slowOn = 1 => cf
 ConcCfgSet ==
   [wt : {"count", "time"}, N : {2}, min : {2}, thr : {2}, perm : {1, 2}, slowOn : {0, 1}, slowThr : {2}, slowRate : {2},
    D : {4}, wait : {3}, cls : {"default"}, fb : {0, 1}]
+ConcCfgSetT == {cf \in ConcCfgSet : cf.slowOn = 0}
 ConcCfgSetQ == {cf \in ConcCfgSet : cf.slowOn = 0 /\ cf.wt = "count"}
 MCEnforce == [C04 |-> TRUE, X |-> TRUE]
 AllOps == {"force_open", "force_closed", "reset"}
